@@ -148,6 +148,19 @@ def one(src, xs):
         rec["parse"] = "SyntaxError"
     except BaseException as ex:  # noqa
         rec["parse"] = type(ex).__name__
+    # CPython's own verdict on the *string* (after the strip() the code applies): does it compile
+    # as one expression?  Nothing is executed.
+    try:
+        compile(src.strip(), "<s>", "eval")
+        rec["compile"] = "ok"
+    except BaseException as ex:  # noqa
+        rec["compile"] = type(ex).__name__
+    # the tree the Expression holds must be the tree CPython's parser gives for the stripped string
+    if expr is not None and tree is not None and hasattr(expr, "_tree"):
+        try:
+            rec["same_tree"] = ast.dump(expr._tree) == ast.dump(tree)
+        except RecursionError:
+            pass
     if tree is not None:
         try:
             rec["coq"] = S.ser(tree.body)
